@@ -37,6 +37,8 @@ pub enum Op {
     ReceiverDrop(usize),
     Point(&'static str),
     LockAcq(&'static str, bool),
+    /// receive on a multi-sender ("external") channel whose senders are threads outside the model
+    RecvExt(usize),
 }
 
 impl Op {
@@ -56,6 +58,7 @@ impl Op {
             Op::ReceiverDrop(c) => format!("RD{}", c),
             Op::Point(n) => format!("P:{}", n),
             Op::LockAcq(n, w) => format!("L:{}:{}", n, if *w { "W" } else { "R" }),
+            Op::RecvExt(c) => format!("RX{}", c),
         }
     }
 }
@@ -74,6 +77,19 @@ struct Th {
     /// hash of the sequence of (op, alternative, result) this thread completed
     hist: u64,
     name: String,
+}
+
+/// A channel with several senders that are not logical threads of the model (e.g. helper threads spawned by main
+/// that report over one shared unbounded channel). Each sender handle gets an id in creation (clone) order; a send by
+/// such a thread is *offered* to the scheduler and completes when the receiving logical thread's `RecvExt` picks it.
+struct Ext {
+    handles_alive: usize,
+    next_handle: usize,
+    /// handles whose owner is blocked in `send`
+    parked: Vec<usize>,
+    /// messages pushed directly by logical threads
+    queued: usize,
+    last_change: std::time::Instant,
 }
 
 struct Chan {
@@ -100,6 +116,7 @@ struct Decision {
 struct State {
     threads: Vec<Th>,
     chans: Vec<Chan>,
+    exts: Vec<Ext>,
     granted: Option<(usize, usize)>,
     choices: Vec<usize>,
     trace: Vec<Decision>,
@@ -123,6 +140,10 @@ thread_local! { static TID: Cell<Option<usize>> = const { Cell::new(None) }; }
 pub const SIGTID: usize = usize::MAX;
 /// select alternative: timeout fired / nothing ready
 pub const ALT_NONE: usize = usize::MAX - 1;
+/// RecvExt alternative: take a message a logical thread pushed directly
+pub const ALT_QUEUED: usize = usize::MAX - 2;
+/// how long a RecvExt waits for the remaining live sender handles to arrive before deciding without them
+const EXT_GRACE_MS: u128 = 1500;
 
 static CONTROLLED: std::sync::OnceLock<bool> = std::sync::OnceLock::new();
 static POSTOPS: std::sync::OnceLock<bool> = std::sync::OnceLock::new();
@@ -164,6 +185,7 @@ pub fn init_main() {
     *g = Some(State {
         threads: vec![Th { status: Status::Running, ops_done: 0, hist: 0, name: "main".into() }],
         chans: vec![],
+        exts: vec![],
         granted: None,
         choices,
         trace: vec![],
@@ -249,6 +271,31 @@ impl State {
             .all(|t| t.status != Status::Running)
     }
 
+    /// every thread parked on a RecvExt sees all live sender handles of its channel blocked in `send`
+    /// (or the grace period for stragglers is over)
+    fn ext_ready(&mut self) -> bool {
+        let mut ready = true;
+        let mut late = vec![];
+        for th in self.threads.iter() {
+            if let Status::Parked(Op::RecvExt(c)) = &th.status {
+                let x = &self.exts[*c];
+                if x.parked.len() != x.handles_alive {
+                    if x.last_change.elapsed().as_millis() > EXT_GRACE_MS {
+                        late.push(*c);
+                    } else {
+                        ready = false;
+                    }
+                }
+            }
+        }
+        if ready {
+            for c in late {
+                self.events.push(format!("extq-timeout{}", c));
+            }
+        }
+        ready
+    }
+
     fn start_pending(&mut self) {
         for t in self.threads.iter_mut() {
             if t.status == Status::Pending {
@@ -298,6 +345,20 @@ impl State {
                             v.push((tid, ALT_NONE, "SEL>none".to_string()));
                         }
                     }
+                    Op::RecvExt(c) => {
+                        let x = &self.exts[*c];
+                        if x.queued > 0 {
+                            v.push((tid, ALT_QUEUED, format!("RX{}>q", c)));
+                        }
+                        let mut hs = x.parked.clone();
+                        hs.sort();
+                        for h in hs {
+                            v.push((tid, h, format!("RX{}>h{}", c, h)));
+                        }
+                        if x.queued == 0 && x.parked.is_empty() && x.handles_alive == 0 {
+                            v.push((tid, ALT_NONE, format!("RX{}>closed", c)));
+                        }
+                    }
                     _ => v.push((tid, 0, op.short())),
                 }
             }
@@ -324,6 +385,11 @@ impl State {
         }
         for c in &self.chans {
             (c.sent, c.recvd, c.sender_alive, c.receiver_alive).hash(&mut h);
+        }
+        for x in &self.exts {
+            let mut p = x.parked.clone();
+            p.sort();
+            (p, x.queued).hash(&mut h);
         }
         self.sig.hash(&mut h);
         self.timeouts_used.hash(&mut h);
@@ -493,6 +559,22 @@ impl State {
                 0
             }
             Op::PostSend(_) => 0,
+            Op::RecvExt(c) => {
+                let x = &mut self.exts[*c];
+                x.last_change = std::time::Instant::now();
+                if alt == ALT_NONE {
+                    self.events.push(format!("xx{}", c));
+                    0
+                } else if alt == ALT_QUEUED {
+                    x.queued -= 1;
+                    self.events.push(format!("rxq{}", c));
+                    1
+                } else {
+                    x.parked.retain(|h| *h != alt);
+                    self.events.push(format!("rx{}h{}", c, alt));
+                    1
+                }
+            }
         };
         let th = &mut self.threads[tid];
         th.hist = mix(th.hist, (op, alt, r));
@@ -523,19 +605,75 @@ pub fn park(op: Op) -> (usize, usize) {
                 st.threads[tid].status = Status::Running;
                 st.threads[tid].ops_done += 1;
                 let r = st.apply(tid, &op, alt);
-                if st.threads[tid].status == Status::Finished && st.granted.is_none() && st.quiescent() {
+                if st.threads[tid].status == Status::Finished && st.granted.is_none() && st.quiescent() && st.ext_ready() {
                     st.decide();
                     CV.notify_all();
                 }
                 return (alt, r);
             }
         } else if st.quiescent() {
-            st.decide();
-            CV.notify_all();
+            if st.ext_ready() {
+                st.decide();
+                CV.notify_all();
+                continue;
+            }
+            // senders outside the model are still on their way: look again shortly
+            g = CV.wait_timeout(g, std::time::Duration::from_millis(20)).unwrap().0;
             continue;
         }
         g = CV.wait(g).unwrap();
     }
+}
+
+/// A new multi-sender channel (crossbeam `unbounded`): returns its id in the external-channel table.
+pub fn new_ext_channel() -> usize {
+    let mut g = STATE.lock().unwrap();
+    let st = g.as_mut().expect("vsched not initialised");
+    st.exts.push(Ext { handles_alive: 1, next_handle: 1, parked: vec![], queued: 0, last_change: std::time::Instant::now() });
+    st.exts.len() - 1
+}
+
+/// `Sender::clone` on an external channel: a new handle id (creation order).
+pub fn ext_handle_new(c: usize) -> usize {
+    let mut g = STATE.lock().unwrap();
+    let st = g.as_mut().unwrap();
+    let x = &mut st.exts[c];
+    x.handles_alive += 1;
+    x.next_handle += 1;
+    x.last_change = std::time::Instant::now();
+    CV.notify_all();
+    x.next_handle - 1
+}
+
+pub fn ext_handle_drop(c: usize) {
+    let mut g = STATE.lock().unwrap();
+    if let Some(st) = g.as_mut() {
+        let x = &mut st.exts[c];
+        x.handles_alive = x.handles_alive.saturating_sub(1);
+        x.last_change = std::time::Instant::now();
+    }
+    CV.notify_all();
+}
+
+/// A thread outside the model is blocked in `send` through handle `h`.
+pub fn ext_sender_parked(c: usize, h: usize) {
+    let mut g = STATE.lock().unwrap();
+    if let Some(st) = g.as_mut() {
+        let x = &mut st.exts[c];
+        x.parked.push(h);
+        x.last_change = std::time::Instant::now();
+    }
+    CV.notify_all();
+}
+
+/// A logical thread pushed a message directly.
+pub fn ext_direct_send(c: usize) {
+    let mut g = STATE.lock().unwrap();
+    if let Some(st) = g.as_mut() {
+        st.exts[c].queued += 1;
+        st.exts[c].last_change = std::time::Instant::now();
+    }
+    CV.notify_all();
 }
 
 pub fn finish(tid: usize) {
@@ -543,7 +681,7 @@ pub fn finish(tid: usize) {
     let st = g.as_mut().unwrap();
     st.threads[tid].status = Status::Finished;
     st.locks.retain(|l| l.1 != tid);
-    if st.granted.is_none() && st.quiescent() {
+    if st.granted.is_none() && st.quiescent() && st.ext_ready() {
         st.decide();
     }
     CV.notify_all();
